@@ -261,6 +261,7 @@ func runC26(c *Ctx) {
 		if fn == nil || tfw == nil {
 			continue
 		}
+		fs.add = ViaHelper(fs.add)
 		fl := NewFlow(c.P).
 			KillAfter("nothing-added", fs.add).
 			KillAfter("key-filterable", fs.add).
